@@ -334,6 +334,7 @@ def gen_registry_rs(model):
     group("for_each_single_type", lambda t: t["ref"] is None and len(t["units"]) == 1, None)
     group("for_each_type", lambda t: True, None)
     group("for_each_main_type", lambda t: t["universe"] == "main", None)
+    group("for_each_serde_type", lambda t: t["universe"] in ("main", "syn"), None)
     # operator instances
     insts = operator_instances(model, ("main", "astro", "syn"))
     out.append("#[macro_export]")
